@@ -156,10 +156,10 @@ pub fn catalogue(f: &FieldInfo) -> Vec<W> {
     v
 }
 
-fn fp(f: &FieldInfo, func: &str, a: &W) -> Value {
+pub fn fp(f: &FieldInfo, func: &str, a: &W) -> Value {
     json!({"op": "fp", "f": f.name, "fn": func, "a": nat(a)})
 }
-fn fp2(f: &FieldInfo, func: &str, a: &W, b: &W) -> Value {
+pub fn fp2(f: &FieldInfo, func: &str, a: &W, b: &W) -> Value {
     json!({"op": "fp", "f": f.name, "fn": func, "a": nat(a), "b": nat(b)})
 }
 fn rp(f: &FieldInfo, func: &str, a: &W) -> Value {
@@ -297,25 +297,25 @@ fn wl_c08(seed: u64, tier: &str) -> Vec<Vec<Value>> {
 
 // ---------------------------------------------------------------------------
 // tower elements as JSON
-fn f2(a: &W, b: &W) -> Value {
+pub fn f2(a: &W, b: &W) -> Value {
     json!([nat(a), nat(b)])
 }
-fn rand_f2(r: &mut Rng, f: &FieldInfo) -> Value {
+pub fn rand_f2(r: &mut Rng, f: &FieldInfo) -> Value {
     let a = rand_elem(r, f);
     let b = rand_elem(r, f);
     f2(&a, &b)
 }
-fn rand_f6(r: &mut Rng, f: &FieldInfo) -> Value {
+pub fn rand_f6(r: &mut Rng, f: &FieldInfo) -> Value {
     json!([rand_f2(r, f), rand_f2(r, f), rand_f2(r, f)])
 }
-fn rand_f12(r: &mut Rng, f: &FieldInfo) -> Value {
+pub fn rand_f12(r: &mut Rng, f: &FieldInfo) -> Value {
     json!([rand_f6(r, f), rand_f6(r, f)])
 }
-fn zero_w(f: &FieldInfo) -> W {
+pub fn zero_w(f: &FieldInfo) -> W {
     vec![0u64; f.nw]
 }
 /// Fq2 catalogue: 0, 1, -1, u, -u, 1+u, single coordinates, boundary pairs
-fn cat_f2(r: &mut Rng, f: &FieldInfo) -> Vec<Value> {
+pub fn cat_f2(r: &mut Rng, f: &FieldInfo) -> Vec<Value> {
     let z = zero_w(f);
     let one = w_add_small(&z, 1);
     let m1 = w_sub_small(&f.p, 1);
@@ -387,10 +387,10 @@ fn cat_f12(r: &mut Rng, f: &FieldInfo) -> Vec<Value> {
     v
 }
 
-fn ext1(fname: &str, func: &str, a: &Value) -> Value {
+pub fn ext1(fname: &str, func: &str, a: &Value) -> Value {
     json!({"op": "ext", "f": fname, "fn": func, "a": a})
 }
-fn ext2(fname: &str, func: &str, a: &Value, b: &Value) -> Value {
+pub fn ext2(fname: &str, func: &str, a: &Value, b: &Value) -> Value {
     json!({"op": "ext", "f": fname, "fn": func, "a": a, "b": b})
 }
 
@@ -593,7 +593,7 @@ use pairing::bls12_381::{G1, G2};
 use pairing::{CurveAffine, CurveProjective, EncodedPoint};
 use rand_core::SeedableRng;
 
-fn xs(seed: u64) -> rand_xorshift::XorShiftRng {
+pub fn xs(seed: u64) -> rand_xorshift::XorShiftRng {
     let mut s = [0u8; 16];
     s[..8].copy_from_slice(&seed.to_le_bytes());
     s[8..].copy_from_slice(&(!seed).to_le_bytes());
@@ -703,10 +703,10 @@ fn wl_c01(seed: u64, tier: &str) -> Vec<Vec<Value>> {
 
 // ---------------------------------------------------------------------------
 // C02 / C10: scalars and point pools
-fn w_or(a: &W, b: &W) -> W {
+pub fn w_or(a: &W, b: &W) -> W {
     a.iter().zip(b.iter()).map(|(x, y)| x | y).collect()
 }
-fn rand_scalar_bits(r: &mut Rng, bits: usize) -> W {
+pub fn rand_scalar_bits(r: &mut Rng, bits: usize) -> W {
     // uniformly random value with exactly `bits` significant bits (bits >= 1), 4 words
     let mut w: W = (0..4).map(|_| r.next()).collect();
     for i in bits..256 {
@@ -716,7 +716,7 @@ fn rand_scalar_bits(r: &mut Rng, bits: usize) -> W {
     w
 }
 /// (scalar, class) catalogue; `all` adds every single bit and more boundaries
-fn scalar_catalogue(r: &mut Rng, all: bool) -> Vec<(W, &'static str)> {
+pub fn scalar_catalogue(r: &mut Rng, all: bool) -> Vec<(W, &'static str)> {
     let fr = fr_info();
     let z = vec![0u64; 4];
     let mut v: Vec<(W, &'static str)> = vec![];
@@ -761,7 +761,7 @@ fn scalar_catalogue(r: &mut Rng, all: bool) -> Vec<(W, &'static str)> {
     v
 }
 
-fn point_pool<G: Grp>(r: &mut Rng, seed: u64, with_t3: bool) -> Vec<(G, &'static str)>
+pub fn point_pool<G: Grp>(r: &mut Rng, seed: u64, with_t3: bool) -> Vec<(G, &'static str)>
 where
     G::Base: J,
     G::Affine: CurveAffine<Projective = G>,
@@ -1019,6 +1019,10 @@ pub fn generate(name: &str, seed: u64, tier: &str) -> Vec<Vec<Value>> {
         "c01" => wl_c01(seed, tier),
         "c02" => wl_c02(seed, tier),
         "c10" => wl_c10(seed, tier),
+        "c04" => crate::wl_enc::wl_c04(seed, tier),
+        "c05" => crate::wl_enc::wl_c05(seed, tier),
+        "c07" => crate::wl_enc::wl_c07(seed, tier),
+        "c19" => crate::wl_enc::wl_c19(seed, tier),
         "c08" => wl_c08(seed, tier),
         "c09" => wl_c09(seed, tier),
         "c18" => wl_c18(seed, tier),
